@@ -1,11 +1,12 @@
 /-
   C10 (area cluster) — the catalog parsers, both dump paths and the remote client never fault on ANY bytes,
   relative to a total row reader: every function of catalog.go / pgdump.go / remote.go is list processing on
-  top of `ReadRows`, so the only way it can panic is through `ReadRows` (area `rows`:
-  `C10.Rows.C10_total_readRows` shows ReadRows total for every total scalar decoder; `total_with_readRows`
-  below plugs it in).  No well-formedness of any file is assumed.
+  top of `ReadRows` (and, for a table without columns, `ReadTuples`, which never faults: area `heap`), so the only way
+  it can panic is through `ReadRows` (area `rows`: `C10.Rows.C10_total_readRows` shows ReadRows total for every total
+  scalar decoder; `total_with_readRows` below plugs it in).  No well-formedness of any file is assumed.
 -/
 import PgVerif.Proofs.ClusterMap
+import PgVerif.Proofs.HeapFile
 namespace PgVerif.Props.C10.Cluster
 open PgVerif PgVerif.Model PgVerif.Proofs PgVerif.Proofs.Cluster
 
@@ -29,27 +30,47 @@ theorem C10_total_parsePGClass (rr : RowReader) (h : TotalReader rr) (data : Byt
   simp only [parsePGClass, hr, ok_bind, pure_eq_ok]
   exact ⟨_, rfl⟩
 
-/-- detectAttrSchema returns for every byte string and every version hint. -/
-theorem C10_total_detectAttrSchema (rr : RowReader) (h : TotalReader rr) (data : Bytes) (v : Int) :
-    ∃ r, detectAttrSchema rr data v = .ok r := by
-  unfold detectAttrSchema
+/-- readAttrRowsWithDropped (the automatic choice between the three pg_attribute layouts) returns for every byte string. -/
+theorem C10_total_catReadAttrRowsAuto (rr : RowReader) (h : TotalReader rr) (data : Bytes) :
+    ∃ r, catReadAttrRowsAuto rr data = .ok r := by
+  obtain ⟨r16, h16⟩ := h data catSchemaAttr16 true
+  obtain ⟨r15, h15⟩ := h data catSchemaAttr14 true
+  obtain ⟨r12, h12⟩ := h data catSchemaAttr12 true
+  simp only [catReadAttrRowsAuto, h16, h15, h12, ok_bind, pure_eq_ok]
+  exact ⟨_, rfl⟩
+
+/-- readAttrRows returns for every byte string and every version hint. -/
+theorem C10_total_readAttrRows (rr : RowReader) (h : TotalReader rr) (data : Bytes) (v : Int) :
+    ∃ r, readAttrRows rr data v = .ok r := by
+  unfold readAttrRows
   by_cases h1 : v ≥ 16
-  · exact ⟨_, by rw [if_pos h1]; rfl⟩
+  · rw [if_pos h1]; exact h _ _ _
   · rw [if_neg h1]
-    by_cases h2 : v ≥ 12
-    · exact ⟨_, by rw [if_pos h2]; rfl⟩
+    by_cases h2 : v ≥ 14
+    · rw [if_pos h2]; exact h _ _ _
     · rw [if_neg h2]
-      obtain ⟨rows, hr⟩ := h data schemaPGAttrV16 true
-      simp only [hr, ok_bind]
-      split <;> exact ⟨_, rfl⟩
+      by_cases h3 : v ≥ 12
+      · rw [if_pos h3]; exact h _ _ _
+      · rw [if_neg h3]; exact C10_total_catReadAttrRowsAuto rr h data
 
 /-- ParsePGAttribute returns for every byte string and every version hint. -/
 theorem C10_total_parsePGAttribute (rr : RowReader) (h : TotalReader rr) (data : Bytes) (v : Int) :
     ∃ r, parsePGAttribute rr data v = .ok r := by
-  obtain ⟨schema, hs⟩ := C10_total_detectAttrSchema rr h data v
-  obtain ⟨rows, hr⟩ := h data schema true
-  simp only [parsePGAttribute, hs, hr, ok_bind, pure_eq_ok]
+  obtain ⟨rows, hr⟩ := C10_total_readAttrRows rr h data v
+  simp only [parsePGAttribute, hr, ok_bind, pure_eq_ok]
   exact ⟨_, rfl⟩
+
+/-- readTableRows returns for every byte string and every column list (none included). -/
+theorem C10_total_readTableRows (rr : RowReader) (h : TotalReader rr) (data : Bytes) (cols : List Column) :
+    ∃ r, readTableRows rr data cols = .ok r := by
+  unfold readTableRows
+  by_cases hc : cols.length > 0
+  · rw [if_pos hc]; exact h data cols true
+  · rw [if_neg hc]
+    obtain ⟨es, he⟩ := readTuplesFrom_total data true (data.length / 8192 + 1) 0
+    have he' : readTuples data true = .ok es := he
+    simp only [he', ok_bind, pure_eq_ok]
+    exact ⟨_, rfl⟩
 
 /-- dumpTable returns whatever the catalog says about the table and whatever the file reader hands back
 (garbage, nothing, an error). -/
@@ -68,7 +89,7 @@ theorem C10_total_dumpTable (rr : RowReader) (h : TotalReader rr) (fn : Nat) (in
       by_cases hl : data.length = 0
       · rw [if_pos hl]; exact ⟨_, rfl⟩
       · rw [if_neg hl]
-        obtain ⟨rows, hr⟩ := h data (attrs.map fun a => ⟨a.name, a.typid, a.len, a.num, a.align⟩) true
+        obtain ⟨rows, hr⟩ := C10_total_readTableRows rr h data (attrs.map fun a => ⟨a.name, a.typid, a.len, a.num, a.align⟩)
         simp only [hr, ok_bind, pure_eq_ok]
         exact ⟨_, rfl⟩
 
@@ -167,7 +188,7 @@ theorem C10_total_queryWith (rr : RowReader) (h : TotalReader rr) (fs : RemoteRe
       | none => exact ⟨_, rfl⟩
       | some data =>
         simp only
-        obtain ⟨rows, hr⟩ := h data (attrs.map fun a => ⟨a.name, a.typid, a.len, a.num, a.align⟩) true
+        obtain ⟨rows, hr⟩ := C10_total_readTableRows rr h data (attrs.map fun a => ⟨a.name, a.typid, a.len, a.num, a.align⟩)
         simp only [hr, ok_bind, pure_eq_ok]
         exact ⟨_, rfl⟩
 
